@@ -97,11 +97,15 @@ def vs_from(I, spec):
 
 
 def build_table(I, colspec):
-    """colspec: {key: spec}; missing keys = any."""
-    col = OrderedDict()
-    for k in KEYS:
-        col[k] = vs_from(I, colspec.get(k, "any"))
-    return [col]
+    """colspec: {key: spec} (one column) or a list of them (several columns); missing keys = any."""
+    specs = colspec if isinstance(colspec, list) else [colspec]
+    table = []
+    for cs in specs:
+        col = OrderedDict()
+        for k in KEYS:
+            col[k] = vs_from(I, cs.get(k, "any"))
+        table.append(col)
+    return table
 
 
 # ------------------------------------------------------------------ configurations -------
@@ -360,7 +364,87 @@ def gen_tables(I, rng, conf, ob, ntables):
         tables.append((name, spec, ".*", rk))
     for j in range(max(2, ntables // 6)):
         tables.append(("pattern", {"level": [conf["level"]]}, rng.choice(PATTERNS), None))
+    tables.extend(gen_multi_tables(I, rng, conf, max(4, ntables // 3)))
     return tables
+
+
+GROUP_FLAGS = [  # (custom flag, VideoParameters indices of the group, index key, preset table name)
+    ("custom_dimensions_flag", [0, 1], None, None),
+    ("custom_color_diff_format_flag", [2], None, None),
+    ("custom_scan_format_flag", [3], None, None),
+    ("custom_frame_rate_flag", [5, 6], "frame_rate_index", "PRESET_FRAME_RATES"),
+    ("custom_pixel_aspect_ratio_flag", [7, 8], "pixel_aspect_ratio_index", "PRESET_PIXEL_ASPECT_RATIOS"),
+    ("custom_clean_area_flag", [9, 10, 11, 12], None, None),
+    ("custom_signal_range_flag", [13, 14, 15, 16], "custom_signal_range_index", "PRESET_SIGNAL_RANGES"),
+    ("custom_color_spec_flag", [17, 18, 19], "color_spec_index", "PRESET_COLOR_SPECS"),
+]
+
+
+def gen_multi_tables(I, rng, conf, n):
+    """Level definitions with 2-4 columns which agree on everything the codec features fix and differ in
+    base_video_format and in what the sequence header may contain.  X = the most similar base format,
+    Y = a less similar one: the format is made inexpressible via (X, column of X) so that a correct encoder
+    must either use (Y, column of Y) or report the configuration unsatisfiable."""
+    lvl = [conf["level"]]
+    target = list(conf["vp"])
+    cf = make_cf(I, conf)
+    rank = [int(b) for b in I.esh.rank_base_video_format_similarity(cf["video_parameters"])]
+    if len(rank) < 2:
+        return []
+    out = []
+
+    def differing(bvf):
+        d = C15.flat(I.set_source_defaults(I.t.BaseVideoFormats(bvf)))
+        return [g for g in GROUP_FLAGS if any(d[i] != target[i] for i in g[1])]
+
+    def preset_of(g):
+        if g[3] is None:
+            return None
+        for k, v in getattr(I.t, g[3]).items():
+            if int(k) != 0 and [int(x) for x in v] == [target[i] for i in g[1]]:
+                return int(k)
+        return None
+
+    for j in range(n):
+        kind = rng.choice(["pair-flag", "pair-flag", "pair-index", "same-base", "random", "random"])
+        xi = 0 if rng.random() < 0.75 else rng.randrange(len(rank))
+        X = rank[xi]
+        Y = rng.choice([b for b in rank if b != X])
+        dx = differing(X)
+        if kind == "pair-flag" and dx:
+            g = rng.choice(dx)
+            A = {"level": lvl, "base_video_format": [X], g[0]: [0]}
+            B = {"level": lvl, "base_video_format": [Y]}
+            if rng.random() < 0.4:   # B may not leave everything open either
+                g2 = rng.choice(GROUP_FLAGS)
+                B[g2[0]] = [1]
+            cols = [A, B]
+        elif kind == "pair-index" and [g for g in dx if preset_of(g) is not None]:
+            g = rng.choice([g for g in dx if preset_of(g) is not None])
+            k = preset_of(g)
+            A = {"level": lvl, "base_video_format": [X], g[0]: [0]}
+            B = {"level": lvl, "base_video_format": [Y], g[0]: [1], g[2]: [k]}
+            cols = [A, B] + ([{"level": lvl, "base_video_format": [X], g[0]: [1], g[2]: [k + 1]}] if rng.random() < 0.3 else [])
+        elif kind == "same-base" and dx:
+            # two columns for the SAME base format with different freedoms + one for another format
+            g = rng.choice(dx)
+            cols = [{"level": lvl, "base_video_format": [X], g[0]: [0]},
+                    {"level": lvl, "base_video_format": [X], g[0]: [1], "custom_clean_area_flag": [rng.randint(0, 1)]},
+                    {"level": lvl, "base_video_format": [Y], g[0]: "any"}]
+        else:
+            kind = "random"
+            cols = []
+            for b in rng.sample(rank, min(len(rank), rng.randint(2, 4))):
+                c = {"level": lvl, "base_video_format": [b]}
+                for g in rng.sample(GROUP_FLAGS, rng.randint(1, 4)):
+                    c[g[0]] = [rng.randint(0, 1)]
+                    if g[2] is not None and rng.random() < 0.5:
+                        c[g[2]] = rng.choice([[0], [[1, 20]], [preset_of(g) or 1]])
+                cols.append(c)
+        if rng.random() < 0.5:
+            rng.shuffle(cols)
+        out.append(("multi-" + kind, cols, ".*", None))
+    return out
 
 
 def run_conf(args):
@@ -388,10 +472,11 @@ def run_conf(args):
         res["rows"].append(r)
         # correspondence material: the extended-transform-parameter decisions under this table
         try:
-            res["etp"].append(etp_case(I, conf, spec))
+            res["etp"].append(None if isinstance(spec, list) else etp_case(I, conf, spec))
         except Exception as e:
             res["etp"].append(None)
-        if len(res["hcases"]) < 3 and name in ("exact", "widen", "flags-forced", "preset-only", "base-formats") or name.startswith("restrict:custom_"):
+        if (len(res["hcases"]) < 3 and name in ("exact", "widen", "flags-forced", "preset-only", "base-formats")
+                or name.startswith("restrict:custom_") or name.startswith("multi-")):
             try:
                 hc = header_case(I, conf, spec)
                 if hc is not None:
@@ -460,7 +545,7 @@ def header_case(I, conf, spec):
         cz(int(cf["level"])), cz(int(cf["profile"])), cz(int(cf["picture_coding_mode"])), C15.c_kvs(extra),
         clist(C15.flat(cf["video_parameters"])), clist(cands), clist(rank),
         ";\n   ".join(C15.c_header(h) for h in headers), ";\n   ".join(hobs))
-    return "([%s], %s)" % (C15.c_column(I, table[0]), case)
+    return "([%s], %s)" % ("; ".join(C15.c_column(I, col) for col in table), case)
 
 
 def small_level_confs(I, ctx):
@@ -493,6 +578,68 @@ def small_level_confs(I, ctx):
     return out
 
 
+def real_level_specs(I, ctx):
+    """Formats admitted by the columns of the REAL level table (every level; levels 1-7 and 64, 65 have
+    several columns) plus near misses: picture coding mode / scan format / frame rate / base format taken
+    from a sibling column of the same level."""
+    rng = ctx.rng
+    base = C15.gen_level_formats(I, ctx)
+    by_level = {}
+    for spec, _b in base:
+        by_level.setdefault(spec["level"], []).append(spec)
+    out = [(s, "real-admitted") for s, _b in base]
+    for spec, _b in base:
+        sibs = [s for s in by_level[spec["level"]] if s["column"] != spec["column"]]
+        for rep in range(ctx.pick(2, 6)):
+            s2 = copy.deepcopy(spec)
+            v = s2["vp"]
+            r = rng.randrange(6)
+            sib = rng.choice(sibs) if sibs else spec
+            if r == 0:
+                s2["pcm"] = sib["pcm"] if sib["pcm"] != s2["pcm"] else 1 - s2["pcm"]
+            elif r == 1:
+                v[3] = 1 - v[3]
+            elif r == 2:
+                v[5], v[6] = sib["vp"][5], sib["vp"][6]
+            elif r == 3:
+                s2["vp"] = list(sib["vp"])        # the sibling's format with this column's coding mode
+            elif r == 4:
+                v[5], v[6] = [int(x) for x in rng.choice(list(I.t.PRESET_FRAME_RATES.values()))]
+            else:
+                s2["pcm"] = 1 - s2["pcm"]
+                v[3] = 1 - v[3]
+            if C15.format_valid(s2["vp"], s2["pcm"]):
+                out.append((s2, "real-near-miss"))
+    return out
+
+
+def run_real_header(spec):
+    """REAL table, header level (the pictures of levels 2-7 / 64-66 are too big to encode per run): the
+    encoder's make_sequence_header either raises IncompatibleLevelAndVideoFormatError or the header it
+    puts into every sequence is accepted by the validator's parse_info + sequence_header under the level."""
+    I = impl()
+    cf = C15.make_cf(I, spec)
+    try:
+        h = I.esh.make_sequence_header(cf)
+    except I.enc.UnsatisfiableCodecFeaturesError as e:
+        return {"spec": spec, "result": "unsat", "detail": type(e).__name__}
+    except Exception as e:
+        return {"spec": spec, "result": "crash", "detail": "%s: %s" % (type(e).__name__, e)}
+    data = I.common.serialise([C15.header_stream(I, copy.deepcopy(h))])
+    verdict, exc, vp, state = C15.header_only(I, data)
+    known = None
+    if verdict != "accept" and getattr(exc, "key", None) == "major_version":
+        known = PREFIX + "major_version"
+        allowed = sorted(int(x) for x in exc.allowed_values.iter_values())
+        if allowed:
+            h2 = copy.deepcopy(h)
+            h2["parse_parameters"]["major_version"] = allowed[0]
+            verdict, exc, vp, state = C15.header_only(I, I.common.serialise([C15.header_stream(I, h2)]))
+    key = classify(I, verdict, exc)
+    return {"spec": spec, "result": "accept" if key is None else "reject", "key": key, "known": known,
+            "detail": None if key is None else verdict + ": " + str(exc).split("\n")[0][:300], "header": str(h)[:1200]}
+
+
 def run_real(conf):
     """Encoder + validator under the REAL tables."""
     I = impl()
@@ -514,10 +661,10 @@ def run(ctx):
     I = impl()
     ctx.extra["rule"] = (
         "random small configurations (both profiles, lossless/lossy, all wavelets, asymmetric depths, fragments, custom matrices, "
-        "video formats with preset/custom groups) x synthetic single-column level definitions derived from the values the "
+        "video formats with preset/custom groups) x synthetic level definitions: single-column ones derived from the values the "
         "configuration's own stream contains: exact, widened, one key restricted (value removed / flag inverted), flags forced, "
         "preset-only indices, restricted base formats, pinned versions, extended-transform flag/value sets, 11 ordering patterns; "
-        "plus small formats under the real level table. Non-trivial: the table restricts at least one key; distinct by (configuration, table).")
+        "multi-column ones (2-4 columns agreeing on the configuration's fixed values, differing in base_video_format and in the admitted custom flags / preset indices, built so that the most similar base format cannot express the format through its own column); plus the REAL table: small level-1 formats with pictures and, header level, every column's admitted formats and near misses (sibling column's coding mode / scan / frame rate / format). Non-trivial: the table restricts at least one key; distinct by (configuration, table).")
     confs = gen_configs(I, ctx)
     ntables = ctx.pick(14, 30)
     jobs = [(c, ntables, ctx.rng.randrange(1 << 30)) for c in confs]
@@ -525,6 +672,8 @@ def run(ctx):
     with multiprocessing.Pool(min(14, os.cpu_count() or 2)) as pool:
         results = pool.map(run_conf, jobs, chunksize=2)
         real = pool.map(run_real, small_level_confs(I, ctx), chunksize=1)
+        rspecs = real_level_specs(I, ctx)
+        realh = pool.map(run_real_header, [s for s, _b in rspecs], chunksize=8)
     ctx.note("implementation runs: %.1f s" % (time.time() - t0))
     hist = {}
     etp_cases = []
@@ -554,6 +703,18 @@ def run(ctx):
         if r["result"] == "reject":
             ctx.violation(r["key"], {"conf": r["conf"], "real": True}, "REAL level table: encoder returned a sequence but the validator rejects it: "
                           + r["detail"], observed=r["detail"], expected="accept")
+    seen_known = False
+    for (spec, bucket), r in zip(rspecs, realh):
+        b = "%s-L%d/%s" % (bucket, spec["level"], r["result"])
+        hist[b] = hist.get(b, 0) + 1
+        ctx.count(1, key=C15.digest_conf(spec), bucket=b)
+        if r.get("known") and not seen_known:
+            seen_known = True
+            ctx.violation(r["known"], {"real_header": spec}, "REAL level table: the header make_sequence_header returns is rejected under "
+                          "its own level (autofilled major_version); re-checked with an admitted version", observed="ValueNotAllowedInLevel(major_version)")
+        if r["result"] == "reject":
+            ctx.violation(r["key"], {"real_header": spec}, "REAL level table: make_sequence_header returned a header (no unsatisfiable error) "
+                          "but the validator rejects it under the same level: " + r["detail"], observed=r["header"], expected="accept")
     ctx.extra["outcomes"] = hist
     ctx.note("%d configurations (%d skipped: not encodable under the open table), outcomes %r" % (len(confs), skipped, hist))
     for res in results[:3]:
@@ -585,6 +746,12 @@ def replay(ctx, data):
     I = impl()
     inp = data["input"]
     print("replaying", data.get("key"))
+    if inp.get("real_header") is not None:
+        r = run_real_header(inp["real_header"])
+        print("outcome:", r)
+        bad = r["result"] == "reject" or bool(r.get("known"))
+        print("property violated on this input:", bad)
+        return 1 if bad else 0
     if inp.get("real"):
         r = run_real(inp["conf"])
     else:
